@@ -55,11 +55,23 @@ def s2 : Slice := ⟨0, 2, 3, List.replicate 600 3⟩
 def ops : List RecvOp :=
   [.slice s2, .slice s0, .recv, .slice s0, .msg 1 m1, .recv, .slice s1, .slice s2, .recv, .msg 0 m0, .msg 1 m1, .recv, .recv]
 
+theorem m0_len : m0.length > SLICE_SIZE := by decide +kernel
+theorem m0_n : (3 : Nat) = divCeil m0.length SLICE_SIZE := by decide +kernel
+theorem p0 : s0.payload = sliceBytes m0 3 0 := by decide +kernel
+theorem p1 : s1.payload = sliceBytes m0 3 1 := by decide +kernel
+theorem p2 : s2.payload = sliceBytes m0 3 2 := by decide +kernel
+
+/-- the three slices are genuine for any log whose message 0 is `m0` -/
+theorem gsl (L : List Bytes) (hL : L[0]? = some m0) : ∀ sl ∈ [s0, s1, s2], GenuineSlice L sl := by
+  intro sl h
+  simp only [List.mem_cons, List.not_mem_nil, or_false] at h
+  rcases h with rfl | rfl | rfl
+  · exact ⟨m0, hL, m0_len, m0_n, by decide, p0⟩
+  · exact ⟨m0, hL, m0_len, m0_n, by decide, p1⟩
+  · exact ⟨m0, hL, m0_len, m0_n, by decide, p2⟩
+
 theorem genuine : ∀ op ∈ ops, Genuine L op := by
-  have g : ∀ sl ∈ [s0, s1, s2], GenuineSlice L sl := by
-    intro sl h
-    simp only [List.mem_cons, List.not_mem_nil, or_false] at h
-    rcases h with rfl | rfl | rfl <;> exact ⟨m0, rfl, by decide +kernel, by decide +kernel, by decide +kernel, by decide +kernel⟩
+  have g := gsl L rfl
   intro op h
   simp only [ops, List.mem_cons, List.not_mem_nil, or_false] at h
   rcases h with rfl | rfl | rfl | rfl | rfl | rfl | rfl | rfl | rfl | rfl | rfl | rfl | rfl <;>
